@@ -316,3 +316,79 @@ M('c01-converter-bounds-truthiness-fastpath', 'C01', 'R11', 'falcon/routing/conv
   "    if not (converter._min or converter._max):\n        return value\n    if converter._min is not None and value < converter._min:\n        return None\n")
 # negative control (verified by hand, behaviour-preserving because num_digits < 1 is rejected by the constructor):
 #   `if self._num_digits and len(value) != self._num_digits:` keeps R11 silent
+
+# ----------------------------------------------------------------------- wave 5
+SORT = """        nodes = sorted(
+            nodes, key=lambda node: node.is_var + (node.is_var and not node.is_complex)
+        )
+"""
+NODE_CLASS = 'class CompiledRouterNode:\n    """Represents a single URI segment in a URI."""\n'
+# seeded change s5-c01-3: the key moved into a helper that ranks by num_fields > 1 -- a single field with literal text
+# around it ({name}.json: is_complex, num_fields == 1) then ties with the plain {name} sibling
+M2('c01-key-helper-ranks-by-num-fields', 'C01', 'R2', [
+    {'file': F, 'old': SORT, 'new': "        nodes = sorted(nodes, key=_node_precedence)\n"},
+    {'file': F, 'old': NODE_CLASS,
+     'new': 'def _node_precedence(node):\n    if not node.is_var:\n        return 0\n\n    return 1 if node.num_fields > 1 else 2\n\n\n' + NODE_CLASS}])
+M('c01-key-lambda-ranks-by-num-fields', 'C01', 'R2', F, KEY,
+  "nodes, key=lambda node: node.is_var + (node.is_var and node.num_fields < 2)")
+# {x}.json ties with literals: /a/{x}.json added first masks /a/b.json
+M('c01-key-affix-ties-literal', 'C01', 'R2', F, KEY,
+  "nodes, key=lambda node: (node.is_var and node.num_fields > 1) + 2 * (node.is_var and not node.is_complex)")
+
+# R9: template text in a comment of the generated source.  seeded change s5-c01-2: `# int(\n min=1)` after the convert() line
+CONV_CTOR = "    def __init__(self, unique_idx: int, converter_idx: int) -> None:\n        super().__init__()\n        self._converter_idx = converter_idx\n"
+CONV_CTOR_SPEC = ("    def __init__(self, unique_idx: int, converter_idx: int, converter_spec: str = '') -> None:\n        super().__init__()\n"
+                  "        self._converter_idx = converter_idx\n        self._converter_spec = converter_spec\n")
+CONV_TPL = ("            '{0}{1} = converters[{2}].convert(fragment)'.format(\n                _TAB_STR * indentation,\n"
+            "                self.field_variable_name,\n                self._converter_idx,\n            ),")
+CONV_TPL_SPEC = ("            '{0}{1} = converters[{2}].convert(fragment)  # {3}'.format(\n                _TAB_STR * indentation,\n"
+                 "                self.field_variable_name,\n                self._converter_idx,\n                self._converter_spec,\n            ),")
+CONV_SITE = "            cx_converter = _CxIfConverterField(len(params_stack) + 1, converter_idx)\n"
+M2('c01-converter-spec-in-comment', 'C01', 'R9', [
+    {'file': F, 'old': CONV_CTOR, 'new': CONV_CTOR_SPEC},
+    {'file': F, 'old': CONV_TPL, 'new': CONV_TPL_SPEC},
+    {'file': F, 'old': CONV_SITE,
+     'new': "            cx_converter = _CxIfConverterField(\n                len(params_stack) + 1, converter_idx, _converter_spec(converter_name, converter_argstr)\n            )\n"},
+    {'file': F, 'old': NODE_CLASS,
+     'new': "def _converter_spec(name, argstr):\n    return name if argstr is None else '{0}({1})'.format(name, argstr)\n\n\n" + NODE_CLASS}])
+M2('c01-converter-argstr-in-comment', 'C01', 'R9', [
+    {'file': F, 'old': CONV_CTOR, 'new': CONV_CTOR_SPEC},
+    {'file': F, 'old': CONV_TPL, 'new': CONV_TPL_SPEC},
+    {'file': F, 'old': CONV_SITE, 'new': "            cx_converter = _CxIfConverterField(len(params_stack) + 1, converter_idx, converter_argstr)\n"}])
+# the raw segment of a converter field ({x:int(\n min=1)}) as a comment on the fragment line
+M2('c01-raw-segment-in-comment', 'C01', 'R9', [
+    {'file': F, 'old': "class _CxSetFragmentFromPath(_CxChild):\n    def __init__(self, segment_idx: int) -> None:\n        self._segment_idx = segment_idx\n",
+     'new': "class _CxSetFragmentFromPath(_CxChild):\n    def __init__(self, segment_idx: int, segment: str = '') -> None:\n"
+            "        self._segment_idx = segment_idx\n        self._segment = segment\n"},
+    {'file': F, 'old': "        return '{0}fragment = path[{1}]'.format(\n            _TAB_STR * indentation,\n            self._segment_idx,\n        )",
+     'new': "        return '{0}fragment = path[{1}]  # {2}'.format(\n            _TAB_STR * indentation,\n            self._segment_idx,\n            self._segment,\n        )"},
+    {'file': F, 'old': "parent.append_child(_CxSetFragmentFromPath(level))", 'new': "parent.append_child(_CxSetFragmentFromPath(level, node.raw_segment))"}])
+# the pattern source between quotes (quotes are legal in the literal part of a segment)
+M('c01-pattern-text-quoted', 'C01', 'R9', F,
+  "'{0}match = patterns[{1}].match(path[{2}])  # {3}'", "\"{0}match = patterns[{1}].match(path[{2}]); pattern = '{3}'\"")
+# F18: `$` + .match() admits "x\n" as a field name
+M('c01-identifier-anchor-dollar', 'C01', 'R9', F,
+  r"_IDENTIFIER_PATTERN = re.compile(r'[A-Za-z_][A-Za-z0-9_]*\Z')", "_IDENTIFIER_PATTERN = re.compile('[A-Za-z_][A-Za-z0-9_]*$')")
+M('c01-identifier-pattern-loose', 'C01', 'R9', F,
+  r"_IDENTIFIER_PATTERN = re.compile(r'[A-Za-z_][A-Za-z0-9_]*\Z')", r"_IDENTIFIER_PATTERN = re.compile(r'[^:}/]+\Z')")
+M('c01-identifier-check-dropped', 'C01', 'R9', F,
+  "            if not is_identifier or name in keyword.kwlist:", "            if name in keyword.kwlist:")
+
+# R5 through one same-class helper (shape of seeded change s5-c19-1) with two tables swapped
+M2('c01-lookup-helper-swaps-tables', 'C01', 'R5', [
+    {'file': F, 'old': """        node: Optional[CompiledRouterNode] = self._find(
+            path, self._return_values, self._patterns, self._converters, params
+        )""", 'new': "        node = self._lookup(path, params)"},
+    {'file': F, 'old': """        return self._find(
+            path, self._return_values, self._patterns, self._converters, params
+        )
+""", 'new': """        return self._lookup(path, params)
+
+    def _lookup(self, path, params):
+        tables = (self._return_values, self._converters, self._patterns)
+        return self._find(path, *tables, params)
+"""}], also=('C19',))  # C19 R1 reads the same call (tables after the callee)
+# negative controls verified by hand on a scratch copy (all exit 0): key as a correct multi-return def / method / conditional
+# expression / tuple; `# {3}` fed with the converter NAME (a key of the converter map); `# {3!r}` fed with the argstr; a
+# helper that applies !r itself; `$` + .fullmatch(); the inlined test `_IDENTIFIER_PATTERN.match(name) is None or ...`;
+# the unswapped _lookup helper.  `find = self._find; find(...)` is exit 2.
